@@ -12,6 +12,8 @@ import Infretis.Lemmas.PermMC
 import Infretis.Lemmas.PermCacheInv
 import Infretis.Lemmas.PermRandomInv
 import Infretis.Lemmas.PermEval
+import Infretis.Lemmas.PermAnyOrder
+import Infretis.Lemmas.PermOnes
 import Mathlib.Tactic.IntervalCases
 import Mathlib.Tactic.NormNum
 /-!
@@ -345,8 +347,10 @@ example : (sortedOut { offset := 0, m := 13, sortIdx := List.range 13, sorted :=
 /-! ## 9. The `prob` property and its cache `_last_prob` (model: `Infretis.PermCache`)
 
 The sampler state machine over the operations that touch `state`, `_locks` or `_last_prob`:
-the getter, `lock`, `unlock`, `pick`/`pick_traj_ens` (read, `swap`, `lock`), `add_traj`, `sort_trajstate`,
-`print_state` — and the bare `swap`, which the sampler never performs on its own. -/
+the getter, `lock`, `unlock`, `pick`/`pick_traj_ens` (read, `swap`, `lock`), `pick_lock` re-issuing a recorded job
+after a restart (`swap`, `lock` WITHOUT a read — op `reissue`, added by the audit pass: before, this step could only
+be written with the non-public bare swap, so restart histories were outside the theorem), `add_traj`,
+`sort_trajstate`, `print_state` — and the bare `swap`, which the sampler never performs on its own. -/
 
 open Infretis.PermCache in
 /-- **Cache coherence for every operation history.**  Start from any coherent state (e.g. an empty cache) and run
@@ -367,6 +371,16 @@ theorem cache_fresh_coherent (n : Nat) (ti : Int) (W : Mat) (locks : List Bool) 
 
 /-- slots: the [0-] path, one plus path, ghost -/
 def wCache : Mat := [[1,0,0],[0,1,0],[0,0,0]]
+
+open Infretis.PermCache in
+open Infretis.PermCache in
+/-- the restart scenario: the cache is full (the `add_traj`s of `load_paths` end with a read), `pick_lock` re-issues
+    the job that was in flight (swap + lock, no read: a public operation), the next read recomputes — the history
+    completes, both matrices handed out are current, and a bare swap stays non-public -/
+example : isPublic (.reissue 0 0) = true ∧ isPublic (.rawSwap 0 0) = false
+    ∧ (match run (mkC 3 (-1) wCache [false, false, true] [some 1, some 2, none]) [.read, .reissue 0 0, .read] with
+       | .ok (c', us) => us.length == 2 && c'.cache.isSome && us.all (fun u => decide (u.val = compute u.at_))
+       | .error _ => false) = true := by decide +kernel
 
 open Infretis.PermCache in
 /-- a history through every public operation: read, pick (swap+lock), print_state, add_traj of the finished job,
@@ -537,5 +551,157 @@ theorem permanent_path_exact_on_hole :
   constructor
   · exact permanentProb_eq_spec _ (by decide +kernel) (by decide +kernel) (by decide +kernel) (by decide +kernel)
   · exact permanentProb_eq_spec _ (by decide +kernel) (by decide +kernel) (by decide +kernel) (by decide +kernel)
+
+/-! ## 12. Any tie order of the two `np.argsort` calls (audit pass)
+
+The model's `argsort` is stable (`List.mergeSort`); numpy's default `argsort` is not.  On in-family matrices in which
+several live paths end at the same ensemble with different weights the code's `sort_idx` therefore differs from the
+model's (measured: 197 of 3000 random states with 8 plus ensembles and free weights), so the theorems of §7 — stated
+for `infRetis`, i.e. for the stable order — did not speak about the row order the code really computes with.
+`infRetisGiven W locks off a b` is `inf_retis` with the results `a`, `b` of its two argsort calls as inputs;
+`Sorts keys idx` is all that is assumed about them: a permutation of the positions that reads the keys in
+non-decreasing order (the tie evaluates the executable `sortsB` on every logged argsort call of the real code and
+runs `infRetisGiven` with the code's own results). -/
+
+/-- `infRetis` is `infRetisGiven` at the stable sort -/
+theorem infRetis_is_given (W : Mat) (locks : List Bool) (off : Nat) :
+    infRetis W locks off
+      = infRetisGiven W locks off (argsort (keysMinus off W locks)) (argsort (keysPlus off W locks)) := rfl
+
+/-- … and the stable sort is one admissible result -/
+example (keys : List Int) : Sorts keys (argsort keys) := sorts_argsort keys
+
+/-- **The pipeline theorem for every tie order.**  Whatever the two `np.argsort` calls return, as long as each
+    result sorts its keys: on the reachable family (idle block in `Reach`, perfect matching, no block sent to the
+    Monte-Carlo routine) `inf_retis` returns exactly `probMatrix W locks`.  In particular the result does not
+    depend on the tie order. -/
+theorem infRetis_any_tie_order (off : Nat) (W : Mat) (locks : List Bool) (cnts : List Nat) (a b : List Nat)
+    (ha : Sorts (keysMinus off W locks) a) (hb : Sorts (keysPlus off W locks) b)
+    (hne : idle W locks ≠ [])
+    (hR : Reach (offsetOf off locks) (idle W locks) cnts)
+    (hP : permC (idle W locks) ≠ 0)
+    (hsmall : ∀ bs, findBlocks (prepareGiven off W locks a b).sorted (offsetOf off locks) = .list bs →
+      ∀ bl ∈ bs, branchOf (subBlock (prepareGiven off W locks a b).sorted bl.1 bl.2.1 bl.2.2) ≠ .random) :
+    infRetisGiven W locks off a b = .ok (probMatrix W locks) :=
+  finishOf_eq_probMatrix off W locks cnts a b ha hb hne hR hP hsmall
+
+/-- the same without the Monte-Carlo proviso when at most 12 ensembles are idle -/
+theorem infRetis_any_tie_order_small (off : Nat) (W : Mat) (locks : List Bool) (cnts : List Nat) (a b : List Nat)
+    (ha : Sorts (keysMinus off W locks) a) (hb : Sorts (keysPlus off W locks) b)
+    (hne : idle W locks ≠ [])
+    (hR : Reach (offsetOf off locks) (idle W locks) cnts)
+    (hP : permC (idle W locks) ≠ 0) (h12 : (idle W locks).length ≤ 12) :
+    infRetisGiven W locks off a b = .ok (probMatrix W locks) :=
+  finishOf_eq_probMatrix_small off W locks cnts a b ha hb hne hR hP h12
+
+/-- the full-state form (up to 12 idle ensembles), every tie order -/
+theorem infRetis_any_tie_order_full (W : Mat) (locks : List Bool) (cnts : List Nat) (a b : List Nat)
+    (hF : FullReach W locks cnts)
+    (ha : Sorts (keysMinus 1 W locks) a) (hb : Sorts (keysPlus 1 W locks) b)
+    (hne : idle W locks ≠ [])
+    (hP : permC (idle W locks) ≠ 0) (h12 : (idle W locks).length ≤ 12) :
+    infRetisGiven W locks 1 a b = .ok (probMatrix W locks) := by
+  obtain ⟨cnts', hR⟩ := reach_of_full W locks cnts hF
+  exact infRetis_any_tie_order_small 1 W locks cnts' a b ha hb hne hR hP h12
+
+/-- the executable check used by driver and tie implies the hypothesis -/
+theorem sorts_of_check (keys : List Int) (idx : List Nat) (h : sortsB keys idx = true) : Sorts keys idx :=
+  sorts_of_sortsB keys idx h
+
+/-- the wire-fencing-like state of §7 has two paths (slots 2 and 4) that end at the same ensemble with different
+    weights: `[0,2,3,1]` is the other admissible result of the second argsort (the stable one is `[0,2,1,3]`); it
+    puts the rows into a different order … -/
+example : keysPlus 1 wWire locksWire = [-3, 0, -1, 0]
+    ∧ sortsB (keysPlus 1 wWire locksWire) [0, 2, 3, 1] = true
+    ∧ sortsB (keysPlus 1 wWire locksWire) [0, 2, 1, 3] = true
+    ∧ (prepareGiven 1 wWire locksWire [0] [0, 2, 3, 1]).sorted
+        ≠ (prepareGiven 1 wWire locksWire [0] [0, 2, 1, 3]).sorted := by decide +kernel
+
+/-- … and `inf_retis` returns the specification with that order too -/
+example : infRetisGiven wWire locksWire 1 [0] [0, 2, 3, 1] = .ok (probMatrix wWire locksWire) :=
+  infRetis_any_tie_order_small 1 wWire locksWire [1, 4, 3, 4] [0] [0, 2, 3, 1]
+    (sorts_of_check _ _ (by decide +kernel)) (sorts_of_check _ _ (by decide +kernel))
+    (by decide +kernel) reach_wWire (by decide +kernel) (by decide +kernel)
+
+/-! ## 13. One weight per path (shooting moves only): any number of ensembles, no size proviso (audit pass)
+
+§7 covers more than 12 idle ensembles only through the hypothesis `hsmall` about the blocks `find_blocks` would
+cut.  In the most common set-up — every move is shooting, every live path carries ONE weight — `find_blocks` is
+never called: the code's equal-weight test succeeds and both halves go to `quick_prob`. -/
+
+/-- **The equal-weights branch needs no size proviso.**  When the code's own equal-weight test succeeds,
+    `inf_retis` returns `probMatrix W locks` on the reachable family for any number of idle ensembles. -/
+theorem infRetis_equal_branch_any_size (off : Nat) (W : Mat) (locks : List Bool) (cnts : List Nat) (a b : List Nat)
+    (ha : Sorts (keysMinus off W locks) a) (hb : Sorts (keysPlus off W locks) b)
+    (hne : idle W locks ≠ [])
+    (hR : Reach (offsetOf off locks) (idle W locks) cnts)
+    (hP : permC (idle W locks) ≠ 0)
+    (he : (prepareGiven off W locks a b).equal = true) :
+    infRetisGiven W locks off a b = .ok (probMatrix W locks) :=
+  finishOf_eq_probMatrix_equal off W locks cnts a b ha hb hne hR hP he
+
+/-- **One weight per path ⇒ exact, for any number of ensembles, any lock set, any slot order, any tie order.**
+    `RowConst r`: all non-zero weights of the row are equal. -/
+theorem infRetis_one_weight_per_path (W : Mat) (locks : List Bool) (cnts : List Nat) (a b : List Nat)
+    (hF : FullReach W locks cnts) (hrc : ∀ r ∈ W, RowConst r)
+    (ha : Sorts (keysMinus 1 W locks) a) (hb : Sorts (keysPlus 1 W locks) b)
+    (hne : idle W locks ≠ []) (hP : permC (idle W locks) ≠ 0) :
+    infRetisGiven W locks 1 a b = .ok (probMatrix W locks) := by
+  obtain ⟨cnts', hR⟩ := reach_of_full W locks cnts hF
+  exact infRetis_equal_branch_any_size 1 W locks cnts' a b ha hb hne hR hP
+    (equal_of_rowConst 1 W locks cnts' a b ha hb hR hP (rowConst_idle W locks hrc))
+
+/-- the same for the model's own (stable) order: a statement about `infRetis` -/
+theorem infRetis_one_weight_per_path_stable (W : Mat) (locks : List Bool) (cnts : List Nat)
+    (hF : FullReach W locks cnts) (hrc : ∀ r ∈ W, RowConst r)
+    (hne : idle W locks ≠ []) (hP : permC (idle W locks) ≠ 0) :
+    infRetis W locks 1 = .ok (probMatrix W locks) :=
+  infRetis_one_weight_per_path W locks cnts _ _ hF hrc (sorts_argsort _) (sorts_argsort _) hne hP
+
+/-- **`inf_retis` is exact on the all-shooting state with ANY number `p` of plus ensembles** (13, 50, 1000 idle
+    ensembles alike), for every tie order: non-vacuity of `infRetis_one_weight_per_path` beyond 12. -/
+theorem infRetis_ones_any_size (p : Nat) (a b : List Nat)
+    (ha : Sorts (keysMinus 1 (onesW p) (onesLocks p)) a) (hb : Sorts (keysPlus 1 (onesW p) (onesLocks p)) b) :
+    infRetisGiven (onesW p) (onesLocks p) 1 a b = .ok (probMatrix (onesW p) (onesLocks p)) := by
+  apply infRetis_one_weight_per_path _ _ _ a b (fullReach_ones p) (rowConst_ones p) ha hb
+  · rw [idle_ones]; simp
+  · exact permC_ones_ne p
+
+example : infRetis (onesW 40) (onesLocks 40) 1 = .ok (probMatrix (onesW 40) (onesLocks 40)) :=
+  infRetis_ones_any_size 40 _ _ (sorts_argsort _) (sorts_argsort _)
+
+/-! ## 14. §7 and §10 composed: the Monte-Carlo blocks of the family (audit pass)
+
+`randomProb_zero_where_weight_zero` assumes a non-zero diagonal of the block; its docstring said "true for every
+block `find_blocks` cuts out of a sorted staircase" without a theorem (only the tie judged it). -/
+
+open Infretis.PermRandom in
+/-- **Every diagonal block of the sorted idle block of a family state has a non-zero diagonal, so whatever block
+    `inf_retis` hands to `random_prob` (direction +1: every block right of the `[0-]` row), the Monte-Carlo estimate is
+    surely zero where the weight is zero** — for every tie order, every number of samples, every draw sequence. -/
+theorem monteCarlo_block_zero_where_weight_zero (off : Nat) (W : Mat) (locks : List Bool) (cnts : List Nat)
+    (a b : List Nat) (ha : Sorts (keysMinus off W locks) a) (hb : Sorts (keysPlus off W locks) b)
+    (hR : Reach (offsetOf off locks) (idle W locks) cnts) (hP : permC (idle W locks) ≠ 0)
+    (start stop : Nat) (hstop : stop ≤ (idle W locks).length)
+    (draws : List Draw) (hd : ∀ d ∈ draws, DrawOk d) (r c : Nat) (hr : r < stop - start) (hc : c < stop - start)
+    (hz : entry (subBlock (prepareGiven off W locks a b).sorted start stop 1) r c = 0) :
+    entry (randomProb (subBlock (prepareGiven off W locks a b).sorted start stop 1) draws) r c = 0 := by
+  obtain ⟨cnts', hS⟩ := prepareGiven_sortedReach off W locks cnts a b ha hb hR hP
+  have hl := prepareGiven_sorted_length off W locks a b ha hb
+  have hlen : (subBlock (prepareGiven off W locks a b).sorted start stop 1).length = stop - start :=
+    Blk.subBlock_length _ start stop 1 (by omega)
+  apply randomProb_zero _ draws ?_ hd r c (by omega) (by omega) hz
+  intro k hk
+  rw [hlen] at hk
+  exact subBlock_diag_ne_zero _ _ cnts' hS start stop k hk (by omega)
+
+/-- the 13-row free block of §8 embedded in a state: hypotheses of the theorem on a block that really goes to the
+    Monte-Carlo routine are satisfiable — here on the wire-fencing-like state of §7 (block rows 2..5), where the
+    weight (17,17,17,0) has a zero above the diagonal -/
+example : entry (subBlock (prepareGiven 1 wWire locksWire [0] [0, 2, 3, 1]).sorted 2 5 1) 0 2 = 0
+    ∧ (∀ k, k < 5 - 2 → entry (subBlock (prepareGiven 1 wWire locksWire [0] [0, 2, 3, 1]).sorted 2 5 1) k k ≠ 0) := by
+  refine ⟨by decide +kernel, ?_⟩
+  intro k hk
+  interval_cases k <;> decide +kernel
 
 end Infretis.C02
